@@ -152,7 +152,17 @@ class C11(Prop):
     id = "C11"
     driver = "C11"
     lean_modules = ["Pfb.C11.Props"]
-    theorems = []   # filled below
+    theorems = [
+        "Pfb.C11.fill_tokens",
+        "Pfb.C11.fillLines_width",
+        "Pfb.C11.C11_width",
+        "Pfb.C11.C11_roundtrip",
+        "Pfb.C11.C11_roundtrip_core",
+        "Pfb.C11.C11_roundtrip_unrepaired",
+        "Pfb.C11.readBack_imports",
+        "Pfb.C11.D2_witness_plain",
+        "Pfb.C11.D2_witness_star",
+    ]
     anchors = [
         ("lib/python/pyflyby/_format.py", "fill"),
         ("lib/python/pyflyby/_format.py", "pyfill"),
